@@ -12,6 +12,7 @@ These are core date/index conversion functions used throughout scheduling.
 from cpython.datetime cimport datetime, timedelta
 
 import cython
+from libc.math cimport floor
 
 
 cpdef int project_date_to_idx(
@@ -42,7 +43,7 @@ cpdef int project_date_to_idx(
     except AttributeError:
         diff_seconds = <double>(date - start)
 
-    idx = <int>(diff_seconds / <double>granularity)
+    idx = <int>floor(diff_seconds / <double>granularity)
     return idx
 
 
